@@ -752,7 +752,7 @@ pub fn run_trunc(tr: &mut Trace, rng: &mut Rng, what: &str, n: usize, part: usiz
                 let m128: BigUint = &one << 128usize;
                 let nl = &nn % &m128;
                 let nh = &nn >> 128;
-                let mut ss: Vec<BigUint> = vec![one.clone(), (&one << 247) + 5u32, (&one << 200) - 1u32, (&one << 130) + 1u32, BigUint::from(2u32), &nn - 1u32, &nn - 2u32, &one << 255, (&one << 255) - 1u32,
+                let mut ss: Vec<BigUint> = vec![one.clone(), (&one << 247usize) + 5u32, (&one << 200) - 1u32, (&one << 130) + 1u32, BigUint::from(2u32), &nn - 1u32, &nn - 2u32, &one << 255, (&one << 255) - 1u32,
                     (&one << 255) + 1u32, (&nn - 1u32) >> 1, (&nn + 1u32) >> 1, m128.clone(), &m128 - 1u32, &nh << 128, (&nh << 128) + &nl - 1u32];
                 for _ in 0..(2 + n / 8) {
                     let hi_big = (BigUint::from_bytes_le(&rng.bytes(16)) % (&nh - (&one << 127))) + (&one << 127); // in [2^127, nh)
@@ -760,6 +760,20 @@ pub fn run_trunc(tr: &mut Trace, rng: &mut Rng, what: &str, n: usize, part: usiz
                     for hi in [hi_big, hi_small] {
                         for lo in [BigUint::from(0u32), one.clone(), nl.clone(), &nl - 1u32, &nl + 1u32, &m128 - 1u32] {
                             ss.push((&hi << 128) + lo);
+                        }
+                    }
+                }
+                // the unknown (truncated) top bits of the prepared s at the ends of the search range, for several rm and both
+                // parities of y(R): first / last index of the giant-step table, both search directions
+                let mut forced: Vec<Option<(usize, u8)>> = vec![None; ss.len()];
+                for rmx in [32usize, 31, 17, 16, 9, 8] {
+                    let lowbits = 255 - (rmx - 1);                       // bits of s that stay known (s < 2^255 after preparation)
+                    let low = BigUint::from_bytes_le(&rng.bytes(32)) % (&one << lowbits);
+                    let ones = ((&one << (rmx - 1)) - 1u32) << lowbits;
+                    for (pi, hi) in [ones.clone(), BigUint::from(0u32), &one << 254usize, &ones - (&one << 254usize), &ones - (&one << lowbits)].iter().enumerate() {
+                        for par in 0..2u8 {
+                            if rmx != 32 && pi >= 2 && par == 1 { continue; }
+                            ss.push(hi + &low); forced.push(Some((rmx, par)));
                         }
                     }
                 }
@@ -777,6 +791,7 @@ pub fn run_trunc(tr: &mut Trace, rng: &mut Rng, what: &str, n: usize, part: usiz
                         let (ks, _) = Scalar::decode32(&kb);
                         let rp = Point::mulgen(&ks).encode_uncompressed();
                         r = BigUint::from_bytes_be(&rp[1..33]) % &nn;
+                        if let Some((_, par)) = forced[j] { if (rp[64] & 1) != par { continue; } }
                         if !want_short || r.bits() <= 248 { break; }
                     }
                     if r == BigUint::from(0u32) { continue; }
@@ -793,7 +808,7 @@ pub fn run_trunc(tr: &mut Trace, rng: &mut Rng, what: &str, n: usize, part: usiz
                         Ok(None) => { tr.emit(e.t("some", false)); continue; }
                         Err(m) => { tr.emit(e.s("panic", &m)); continue; }
                     };
-                    let rm = 8 + (j * 7) % 25;
+                    let rm = match forced[j] { Some((x, _)) => x, None => 8 + (j * 7) % 25 };
                     let c = overwrite_tail(&prep, rm, &fills(rng, j));
                     let (c2, h2) = (c.clone(), hvc.clone());
                     let e = Ev::new("p256_trunc").b("pk", &pkc.encode_uncompressed()).b("hv", &hvc).b("orig", &prep).b("sig", &c).n("rm", rm as i64);
